@@ -52,11 +52,14 @@ type TileCase struct {
 	N int64 `json:"n"`
 	W int   `json:"w"`    // 1..256
 	D bool  `json:"data"` // data tile (leaves) instead of hash tile
+	// Prefix: the SumDB is mounted under this path of its host ("" or e.g.
+	// "/sumdb/sum.example.org", the way a module proxy serves one)
+	Prefix string `json:"prefix,omitempty"`
 }
 
 func runTile(c *TileCase) (bool, []string, error) {
 	rec := &recorder{serve: func(string) (int, []byte) { return 200, []byte("x") }}
-	sdb := client.NewSumDB(8, vlib.NewKey("sum.example", "sumdb").Verifier(), "http://sumdb.example", &http.Client{Transport: rec})
+	sdb := client.NewSumDB(8, vlib.NewKey("sum.example", "sumdb").Verifier(), "http://sumdb.example"+c.Prefix, &http.Client{Transport: rec})
 	var err error
 	want := tlog.Tile{H: 8, L: c.L, N: c.N, W: c.W}
 	if c.D {
@@ -90,8 +93,11 @@ func runTile(c *TileCase) (bool, []string, error) {
 	if len(rec.paths) != 1 {
 		return nontrivial, []string{cls}, fmt.Errorf("client made %d requests, want 1", len(rec.paths))
 	}
-	if got, wantp := rec.paths[0], "/"+want.Path(); got != wantp {
-		return nontrivial, []string{cls}, fmt.Errorf("tile L=%d N=%d W=%d: client requested %q, the reference tlog implementation names it %q", want.L, c.N, c.W, got, wantp)
+	if c.Prefix != "" {
+		cls += "-mounted"
+	}
+	if got, wantp := rec.paths[0], c.Prefix+"/"+want.Path(); got != wantp {
+		return nontrivial, []string{cls}, fmt.Errorf("tile L=%d N=%d W=%d of the SumDB at http://sumdb.example%s: client requested %q, the reference tlog implementation names it %q", want.L, c.N, c.W, c.Prefix, got, wantp)
 	}
 	return nontrivial, []string{cls}, nil
 }
@@ -113,11 +119,14 @@ var carryEdges = func() []int64 {
 }()
 
 func TestC18Paths(t *testing.T) {
-	st := vlib.StatsFor("C18", "paths", "tile coordinates (level 0..7 or data, index from {0..1100 dense, every x%03d carry boundary up to 10^9, random}, width 1..256) through the exported SumDB client over a recording transport, compared with tlog.Tile.Path; non-trivial = index >= 1000 or partial width; distinct by coordinate")
+	st := vlib.StatsFor("C18", "paths", "tile coordinates (level 0..7 or data, index from {0..1100 dense, every x%03d carry boundary up to 10^9, random}, width 1..256) through the exported SumDB client over a recording transport, compared with tlog.Tile.Path (also for a SumDB mounted under a path prefix); non-trivial = index >= 1000 or partial width; distinct by coordinate")
 	// dense deterministic part
 	for n := int64(0); n <= 1100; n++ {
 		for _, w := range []int{256, 1, 255} {
 			c := &TileCase{L: int(n % 8), N: n, W: w, D: n%5 == 0}
+			if n%3 == 1 {
+				c.Prefix = "/sumdb/sum.example.org"
+			}
 			nt, cl, err := runTile(c)
 			st.Record(fmt.Sprintf("%v", *c), nt, cl, vlib.SampleOf(c))
 			if err != nil {
@@ -142,7 +151,7 @@ func TestC18Paths(t *testing.T) {
 		}
 	}
 	rapid.Check(t, func(rt *rapid.T) {
-		c := &TileCase{L: rapid.IntRange(0, 7).Draw(rt, "l"), W: rapid.IntRange(1, 256).Draw(rt, "w"), D: vlib.Pct(rt, 20, "data")}
+		c := &TileCase{L: rapid.IntRange(0, 7).Draw(rt, "l"), W: rapid.IntRange(1, 256).Draw(rt, "w"), D: vlib.Pct(rt, 20, "data"), Prefix: rapid.SampledFrom([]string{"", "", "/sumdb/sum.example.org", "/a"}).Draw(rt, "prefix")}
 		switch rapid.IntRange(0, 2).Draw(rt, "nk") {
 		case 0:
 			c.N = rapid.Int64Range(0, 1100).Draw(rt, "n")
@@ -164,8 +173,9 @@ func TestC18Paths(t *testing.T) {
 
 // PairCase is one (from, to) feed over the stub SumDB.
 type PairCase struct {
-	From uint64 `json:"from"`
-	To   uint64 `json:"to"`
+	From   uint64 `json:"from"`
+	To     uint64 `json:"to"`
+	Prefix string `json:"prefix,omitempty"` // see TileCase.Prefix
 }
 
 var (
@@ -217,6 +227,10 @@ func runPair(c *PairCase) (bool, []string, error) {
 	var served []tlog.Tile
 	rec := &recorder{}
 	rec.serve = func(p string) (int, []byte) {
+		if !strings.HasPrefix(p, c.Prefix+"/") {
+			return 404, []byte("nothing is mounted here")
+		}
+		p = strings.TrimPrefix(p, c.Prefix)
 		if p == "/latest" {
 			return 200, sumdbLatest(c.To)
 		}
@@ -235,7 +249,7 @@ func runPair(c *PairCase) (bool, []string, error) {
 		served = append(served, tile)
 		return 200, data
 	}
-	lc, err := config.NewLog(sumdbOrigin, sumKey.VKey(), "http://sumdb.example")
+	lc, err := config.NewLog(sumdbOrigin, sumKey.VKey(), "http://sumdb.example"+c.Prefix)
 	if err != nil {
 		return false, nil, fmt.Errorf("harness: %v", err)
 	}
@@ -245,6 +259,7 @@ func runPair(c *PairCase) (bool, []string, error) {
 	}
 	partial := false
 	for _, p := range rec.paths {
+		p = strings.TrimPrefix(p, c.Prefix)
 		if p == "/latest" {
 			continue
 		}
@@ -262,6 +277,9 @@ func runPair(c *PairCase) (bool, []string, error) {
 	cls := "pair"
 	if partial {
 		cls = "pair-partial-tile"
+	}
+	if c.Prefix != "" {
+		cls += "-mounted"
 	}
 	if rw.calls != 1 {
 		return partial, []string{cls}, fmt.Errorf("feeder made %d updates, want 1", rw.calls)
@@ -296,7 +314,7 @@ func TestC18Pairs(t *testing.T) {
 	if vlib.Thorough() {
 		max = 1200
 	}
-	st := vlib.StatsFor("C18", "pairs", fmt.Sprintf("exhaustive: all size pairs 1 <= from < to <= %d fed by sumdb.FeedLog from a stub SumDB that serves only tiles of the published tree; proof checked by the independent verifier and a real witness; non-trivial = the proof needed a partial tile", max))
+	st := vlib.StatsFor("C18", "pairs", fmt.Sprintf("exhaustive: all size pairs 1 <= from < to <= %d fed by sumdb.FeedLog from a stub SumDB (a quarter of them mounted under a path prefix of its host) that serves only tiles of the published tree; proof checked by the independent verifier and a real witness; non-trivial = the proof needed a partial tile", max))
 	shard, nshards := vlib.Shard()
 	cell := 0
 	for from := uint64(1); from < max; from++ {
@@ -306,6 +324,9 @@ func TestC18Pairs(t *testing.T) {
 				continue
 			}
 			c := &PairCase{From: from, To: to}
+			if (from+to)%4 == 0 {
+				c.Prefix = "/sumdb/sum.example.org" // the same database mounted under a path
+			}
 			nt, cl, err := runPair(c)
 			st.Record(fmt.Sprintf("%d-%d", from, to), nt, cl, vlib.SampleOf(c))
 			if err != nil {
@@ -351,7 +372,7 @@ func TestC18Big(t *testing.T) {
 		if a == 0 {
 			a = 1
 		}
-		c := &PairCase{From: a, To: b}
+		c := &PairCase{From: a, To: b, Prefix: rapid.SampledFrom([]string{"", "", "/sumdb/sum.example.org"}).Draw(rt, "prefix")}
 		nt, cl, err := runPair(c)
 		st.Record(fmt.Sprintf("%d-%d", a, b), nt, cl, vlib.SampleOf(c))
 		if err != nil {
@@ -387,6 +408,33 @@ func init() {
 // CycleCase: a SumDB-style log grows through Sizes while one periodic feeder runs.
 type CycleCase struct {
 	Sizes []uint64 `json:"sizes"`
+	// Bump[i] > 0: while the feeder is submitting its step to Sizes[i], the witness is
+	// moved (honestly, by "another feeder") to an intermediate size Sizes[i-1] < B < Sizes[i],
+	// so the feeder's submission is refused as stale and it must redo the step from B.
+	Bump []uint64 `json:"bump,omitempty"`
+}
+
+// bumpAdapter moves the witness forward behind the feeder's back, once per armed step.
+type bumpAdapter struct {
+	realAdapter
+	mu   sync.Mutex
+	to   uint64 // armed intermediate size (0 = none)
+	done int
+}
+
+func (a *bumpAdapter) Update(ctx context.Context, logID string, oldSize uint64, newCP []byte, proof [][]byte) ([]byte, error) {
+	a.mu.Lock()
+	b := a.to
+	a.to = 0
+	a.mu.Unlock()
+	if b > oldSize {
+		if _, err := a.w.Update(ctx, logID, oldSize, sumdbLatest(b), sumBranch.Consistency(oldSize, b)); err == nil {
+			a.mu.Lock()
+			a.done++
+			a.mu.Unlock()
+		}
+	}
+	return a.realAdapter.Update(ctx, logID, oldSize, newCP, proof)
 }
 
 func runCycles(c *CycleCase) (bool, []string, error) {
@@ -431,10 +479,11 @@ func runCycles(c *CycleCase) (bool, []string, error) {
 	if err != nil {
 		return false, nil, fmt.Errorf("harness: %v", err)
 	}
+	ba := &bumpAdapter{realAdapter: realAdapter{w}}
 	ctx, cancel := context.WithCancel(context.Background())
 	done := make(chan error, 1)
 	go func() {
-		done <- sumdb.FeedLog(ctx, lc, realAdapter{w}, &http.Client{Transport: rec}, 15*time.Millisecond)
+		done <- sumdb.FeedLog(ctx, lc, ba, &http.Client{Transport: rec}, 15*time.Millisecond)
 	}()
 	defer func() {
 		cancel()
@@ -445,6 +494,11 @@ func runCycles(c *CycleCase) (bool, []string, error) {
 	}()
 	id := log.ID(sumdbOrigin)
 	for i, s := range c.Sizes {
+		if i > 0 && i < len(c.Bump) && c.Bump[i] > c.Sizes[i-1] && c.Bump[i] < s {
+			ba.mu.Lock()
+			ba.to = c.Bump[i]
+			ba.mu.Unlock()
+		}
 		mu.Lock()
 		cur = s
 		mu.Unlock()
@@ -462,16 +516,20 @@ func runCycles(c *CycleCase) (bool, []string, error) {
 				if b, err := w.GetCheckpoint(id); err == nil {
 					held = fmt.Sprintf("size %d", e.ScanCheckpoint(b).Size)
 				}
-				return true, []string{"cycles"}, fmt.Errorf("one periodic SumDB feeder, log grew through %v: 20s (>1000 feed cycles) after size %d (step %d) was published the witness holds %s: the feeder's proof for this size pair is not accepted", c.Sizes, s, i, held)
+				return true, []string{"cycles"}, fmt.Errorf("one periodic SumDB feeder, log grew through %v (witness moved to %v during the submissions): 20s (>1000 feed cycles) after size %d (step %d) was published the witness holds %s: the feeder's proof for this size pair is not accepted", c.Sizes, c.Bump, s, i, held)
 			}
 			time.Sleep(5 * time.Millisecond)
 		}
 	}
-	return partial, []string{fmt.Sprintf("cycles:%d", len(c.Sizes))}, nil
+	cls := []string{fmt.Sprintf("cycles:%d", len(c.Sizes))}
+	if ba.done > 0 {
+		cls = append(cls, "witness-moved-under-the-feeder")
+	}
+	return partial, cls, nil
 }
 
 func TestC18Cycles(t *testing.T) {
-	st := vlib.StatsFor("C18", "cycles", "ONE periodic sumdb.FeedLog (interval 15ms) follows a stub SumDB that grows through 3-7 drawn sizes (steps inside one tile, across tile boundaries, up to 2^17) into a real witness: state carried by the feeder across cycles must not spoil later proofs; non-trivial = a partial tile was needed")
+	st := vlib.StatsFor("C18", "cycles", "ONE periodic sumdb.FeedLog (interval 15ms) follows a stub SumDB that grows through 3-7 drawn sizes (steps inside one tile, across tile boundaries, up to 2^17) into a real witness: in about half of the steps the witness is moved honestly to an intermediate size while the feeder is submitting (its submission is refused as stale and it must redo the step from there); state carried by the feeder across cycles and retries must not spoil later proofs; non-trivial = a partial tile was needed")
 	rapid.Check(t, func(rt *rapid.T) {
 		n := rapid.IntRange(3, 7).Draw(rt, "n")
 		c := &CycleCase{}
@@ -486,9 +544,14 @@ func TestC18Cycles(t *testing.T) {
 				s += uint64(rapid.IntRange(1, 70000).Draw(rt, "big"))
 			}
 			c.Sizes = append(c.Sizes, s)
+			var b uint64
+			if i > 0 && s-c.Sizes[i-1] >= 2 && rapid.Bool().Draw(rt, "bump") {
+				b = c.Sizes[i-1] + 1 + uint64(rapid.IntRange(0, int(s-c.Sizes[i-1])-2).Draw(rt, "bumpto"))
+			}
+			c.Bump = append(c.Bump, b)
 		}
 		nt, cl, err := runCycles(c)
-		st.Record(fmt.Sprint(c.Sizes), nt, cl, vlib.SampleOf(c))
+		st.Record(fmt.Sprint(c.Sizes, c.Bump), nt, cl, vlib.SampleOf(c))
 		if err != nil {
 			vlib.SaveFailure("C18", "cycles", c, err)
 			rt.Fatalf("C18 violated: %v", err)
